@@ -281,7 +281,7 @@ func dedupSchema(d *xDoc) (removed []string) {
 
 func main() {
 	c := vk.Init("C12")
-	c.Rule("programs = schemas run through cmd/fixgen built from the working tree: the two shipped schemas (source/fix44.xml; generator/testdata/fix.4.4.xml with its deliberate duplicate removed) and schemas derived by a seeded mutator (remove/reorder/add/rename/renumber members and fields, remove messages, toggle required, change a type's cast, introduce duplicate field numbers or message types, add a repeating group at nesting depth 3; six fixed cast changes that cover Raw and Time), each with a relative, nested or absolute output directory. Per accepted schema three stages: (1) go build of the emitted package; (2) every constant, constructor signature, accessor signature, accessor item index and member list read back with go/parser and compared with the harness's own XML reader; (3) a behavioural driver derived from the XML (not from the emitted code) executed against the compiled package: each setter puts exactly its own tag=value on the wire, getters return it, all-populated wire order = schema order, populating constructors carry exactly the required members, group AddEntry/Entries round-trip, BeginString/MsgType. Plus byte-identical regeneration (also into a directory that already holds the reference generation, with a schema that shortens files; also 24 generations of a schema in which two components declare a group of the same name with different members), identical output across output directories (also when the generator is used as a library: one parsed schema object generated from three times with a new Generator each, and one Generator object executed three times; and a duplicate message type / field number added to the parsed document in memory: rejected at both of two attempts on one Generator, and after the duplicate was removed again that Generator and a new one emit the package of the schema), rejection of duplicate numbers/msgtypes, and tests/fix44 vs fresh generation as declaration multisets. distinct = distinct schema texts; non-trivial = differs from a shipped schema by at least one mutation")
+	c.Rule("programs = schemas run through cmd/fixgen built from the working tree: the two shipped schemas (source/fix44.xml; generator/testdata/fix.4.4.xml with its deliberate duplicate removed) and schemas derived by a seeded mutator (remove/reorder/add/rename/renumber members and fields, remove messages, toggle required, change a type's cast, introduce duplicate field numbers or message types, add a repeating group at nesting depth 3; a message that uses the name of a repeating group as a plain counter field, placed before / after the group's message; six fixed cast changes that cover Raw and Time), each with a relative, nested or absolute output directory. Per accepted schema three stages: (1) go build of the emitted package; (2) every constant, constructor signature, accessor signature, accessor item index and member list read back with go/parser and compared with the harness's own XML reader; (3) a behavioural driver derived from the XML (not from the emitted code) executed against the compiled package: each setter puts exactly its own tag=value on the wire, getters return it, all-populated wire order = schema order, populating constructors carry exactly the required members, group AddEntry/Entries round-trip, BeginString/MsgType. Plus byte-identical regeneration (also into a directory that already holds the reference generation, with a schema that shortens files; also 24 generations of a schema in which two components declare a group of the same name with different members), identical output across output directories (also when the generator is used as a library: one parsed schema object generated from three times with a new Generator each, and one Generator object executed three times; and a duplicate message type / field number added to the parsed document in memory: rejected at both of two attempts on one Generator, and after the duplicate was removed again that Generator and a new one emit the package of the schema), rejection of duplicate numbers/msgtypes, and tests/fix44 vs fresh generation as declaration multisets. distinct = distinct schema texts; non-trivial = differs from a shipped schema by at least one mutation")
 	c.Assume("translation validation by execution on sampled schemas; the harness's XML reader and type-mapping reader are the trusted base; mutations never touch the fields the session pipelines' typed interfaces depend on")
 	work := c.WorkDir
 	if work == "" {
@@ -417,6 +417,38 @@ func main() {
 		}})
 		cases = append(cases, &caseT{id: fmt.Sprintf("depth3-group-%d", bi), doc: d, types: tm, typeOrder: to, outDir: "./deep" + strconv.Itoa(bi),
 			muts: []mutation{{"add-group-at-depth-3", "added group NoDeepNotes inside " + hostPath}}})
+	}
+	// one name used as a repeating group in one message and as a plain (counter) field in another, the plain use before
+	// and after the group use in schema order (FIX 4.4 itself does this with NoRpts in ListStatus)
+	for k, before := range []bool{false, true} {
+		d, tm, to := clone(bases[0])
+		var grp *xMember
+		var owner *xContainer
+		for _, m := range d.Messages {
+			for _, kid := range m.Kids {
+				if kid.XMLName.Local == "group" && grp == nil {
+					grp, owner = kid, m
+				}
+			}
+		}
+		if grp == nil {
+			continue
+		}
+		nm := &xContainer{Name: "CounterOnlyReport", MsgCat: "app", MsgType: "UCR", Kids: []*xMember{
+			{XMLName: xml.Name{Local: "field"}, Name: grp.Name, Required: "Y"},
+		}}
+		for _, f := range d.Fields {
+			if f.Name == "Text" && len(nm.Kids) < 2 {
+				nm.Kids = append(nm.Kids, &xMember{XMLName: xml.Name{Local: "field"}, Name: f.Name, Required: "N"})
+			}
+		}
+		if before {
+			d.Messages = append([]*xContainer{nm}, d.Messages...)
+		} else {
+			d.Messages = append(d.Messages, nm)
+		}
+		cases = append(cases, &caseT{id: fmt.Sprintf("group-name-as-plain-field-%d", k), doc: d, types: tm, typeOrder: to, outDir: "./cnt" + strconv.Itoa(k),
+			muts: []mutation{{"group-name-also-a-plain-field", fmt.Sprintf("message CounterOnlyReport (placed before the group's message: %v) has %s as a plain field; %s has it as a group", before, grp.Name, owner.Name)}}})
 	}
 	// every cast the generator knows, applied to a type no session pipeline depends on (the shipped mappings use
 	// String, Bool, Int and Float only)
